@@ -2,6 +2,7 @@ package engine
 
 import (
 	"fmt"
+	"os"
 	"time"
 )
 
@@ -31,6 +32,11 @@ func BFS[S any](o BFSOpts[S]) *Section {
 	sec := newSection(o.Name)
 	sec.Engine = "BFS"
 	start := time.Now()
+	if os.Getenv("VERIF_CHILD") != "" {
+		sec.Skipped = true
+		register(sec)
+		return sec
+	}
 	if only := replaySection(); only != "" {
 		if only == o.Name {
 			hist := replayChoices
